@@ -202,4 +202,43 @@ theorem monitor_accepts_rollback (m m' : MState) (client : String) (fate : Fate)
   | inl h' => exact absurd hc h'
   | inr h' => exact h'
 
+/-- C04 rule 4: an accepted single-transaction resolve names an outcome its sender learned — as the owner whose primary
+    commit succeeded at that ts, from a status answer, or from a check-secondary-locks answer -/
+theorem monitor_accepts_resolve (m m' : MState) (client : String) (fate : Fate) (S C : Nat)
+    (h : Monitor.step m (.resolve client fate S C []) = .ok m') :
+    let t := m.get S client
+    (0 < C → (t.client = client ∧ t.primaryCommitted = some C) ∨ (∃ a ∈ t.statusAnswers, a.1 = C) ∨ C ∈ t.secOutcomes ∨
+      (t.secMinCommits ≠ [] ∧ ¬ (0 ∈ t.secOutcomes) ∧ C = t.secMinCommits.foldl max 0)) ∧
+    (C = 0 → (∃ a ∈ t.statusAnswers, a.2 = true) ∨ 0 ∈ t.secOutcomes) := by
+  intro t
+  have hall := ((monitor_accepts_iff _ _ _).mp h).1
+  simp only [checksOf, List.mem_cons, List.mem_nil_iff, or_false, forall_eq, List.isEmpty_nil, if_true] at hall
+  constructor
+  · intro hpos
+    split at hall
+    · rename_i h1
+      left
+      simp only [Bool.and_eq_true, beq_iff_eq, decide_eq_true_eq] at h1
+      exact ⟨h1.1, h1.2.1⟩
+    · right
+      try rw [if_pos hpos] at hall
+      simp only [Bool.or_eq_true, List.any_eq_true, beq_iff_eq, List.contains_iff_mem, Bool.and_eq_true,
+        Bool.not_eq_true', List.isEmpty_eq_false_iff, ne_eq] at hall
+      rcases hall with (⟨a, ha, hac⟩ | hsec) | ⟨⟨hne, hz⟩, hmax⟩
+      · left; exact ⟨a, ha, hac⟩
+      · right; left; exact hsec
+      · right; right
+        refine ⟨hne, ?_, hmax⟩
+        intro hmem; rw [List.contains_iff_mem.mpr hmem] at hz; cases hz
+  · intro hz
+    subst hz
+    split at hall
+    · rename_i h1
+      simp at h1
+    · try rw [if_neg (Nat.lt_irrefl 0)] at hall
+      simp only [Bool.or_eq_true, List.any_eq_true, List.contains_iff_mem] at hall
+      rcases hall with ⟨a, ha, hac⟩ | hsec
+      · left; exact ⟨a, ha, hac⟩
+      · right; exact hsec
+
 end CGV.Perc
